@@ -580,7 +580,7 @@ func multiCollectionResume(sched int) {
 		verifAssert(le.o1.SetRaw("a2", 0, nil, []byte("v")) == nil, "write succeeds")
 	}
 	if sched == 2 {
-		verifExplore(verifPreemptions() - 1) // ... or in which they restart, backfill and checkpoint
+		verifExplore(1) // ... or in which they restart, backfill and checkpoint (one preemption: two exceed the path limit)
 	}
 	term = start()
 	verifJoin()
